@@ -931,6 +931,24 @@ fn all_alterations(world: &World, w: usize, thorough: bool) -> Vec<Alt> {
             alts.push(Alt { name: format!("{name}@{i}"), class, hist, pos: Some(i), spec });
         }
     }
+    // a neighbouring entry served at coordinate i with its worldline_tick RE-LABELLED to i (a duplicated / skipped commit
+    // made self-consistent): every per-entry hash still verifies, only the link to the previous commit can reject it -
+    // also when it is the FIRST entry an incremental replay applies (cursor step, tick right after a checkpoint)
+    for i in 0..n {
+        for j in [i.wrapping_sub(1), i + 1] {
+            if j >= n {
+                continue;
+            }
+            let mut x = base[j].clone();
+            x.worldline_tick = wt(i as u64);
+            let mut hist = base.clone();
+            hist[i] = x;
+            let mut spec = bspec(n);
+            spec[i] = "m".into();
+            let class = if j < i { "entry-duplication-relabelled" } else { "entry-gap-relabelled" };
+            alts.push(Alt { name: format!("relabel@{i}<-{j}"), class: class.into(), hist, pos: Some(i), spec });
+        }
+    }
     // structural edits
     for i in 0..n {
         for j in 0..n {
